@@ -189,6 +189,9 @@ def search(ctx):
                         "kind": "args", "args": [pgn, s, 7, q]})
             break
     out += _public_path(ctx)
+    w = _fast_history(ctx)
+    if w:
+        out.append(w)
     return out
 
 
@@ -227,9 +230,73 @@ def _public_path(ctx):
     return out
 
 
+def _fast_history(ctx, only=None):
+    """multi-frame messages on a long-lived decoder: the header reported for a reassembled message is what the
+    identifiers of ITS frames parse to, whatever was seen for the same PGN / source / destination before (an
+    abandoned transfer with another priority, a stray continuation frame)"""
+    from nmea2000.decoder import NMEA2000Decoder
+    from props import c10 as H
+    extract, _ = _impl()
+    rng = ctx.rng
+    P = H.pools(ctx)
+
+    def run(fmt, prefix, frames):
+        dec = NMEA2000Decoder()
+
+        def feed(pkt):
+            if fmt == "ebyte":
+                return dec.decode_tcp(pkt)
+            return dec.decode_yacht_devices_string("00:00:00.000 R %08X %s" % (int.from_bytes(pkt[1:5], "big"),
+                                                                              " ".join("%02X" % b for b in pkt[5:5 + (pkt[0] & 15)])))
+        for pkt in prefix:
+            try:
+                feed(pkt)
+            except Exception:  # noqa: BLE001
+                pass
+        r = None
+        for pkt in frames:
+            try:
+                r = feed(pkt)
+            except Exception:  # noqa: BLE001
+                return None
+        if r is None:
+            return None
+        hdrs = {tuple(extract(int.from_bytes(pkt[1:5], "big"))) for pkt in frames}
+        if len(hdrs) != 1:
+            return None
+        exp = hdrs.pop()
+        got = (r.PGN, r.source, r.destination, r.priority)
+        if got != exp:
+            return {"key": f"public:fast-history:{fmt}", "kind": "fast-history", "fmt": fmt,
+                    "prefix": [x.hex() for x in prefix], "frames": [x.hex() for x in frames],
+                    "what": f"{fmt}: after {len(prefix)} earlier frame(s) of the same PGN/source/destination, a message whose "
+                            f"identifiers all parse to (pgn, src, dst, prio) = {exp} is reported as {got}"}
+        return None
+    if only is not None:
+        return run(only["fmt"], [bytes.fromhex(x) for x in only["prefix"]], [bytes.fromhex(x) for x in only["frames"]])
+    for _ in range(ctx.n(80, 800)):
+        pgn = rng.choice(H.FAST)
+        src = rng.choice([1, 2, 9, 254])
+        dst = 255 if not H.is_pdu1(pgn) else rng.choice([255, 17, 0])
+        pa, pb = rng.sample(range(8), 2)
+        sa, sb = rng.sample(range(8), 2)
+        old = [H.mk_pkt(pgn, src, dst, pa, (f + bytes([0xFF] * 8))[:8], 8) for f in H.fast_frames(P.payload(pgn, 0.0), sa)]
+        new = [H.mk_pkt(pgn, src, dst, pb, (f + bytes([0xFF] * 8))[:8], 8) for f in H.fast_frames(P.payload(pgn, 0.0), sb)]
+        prefix = rng.choice([old[:1], old[1:2], old[:2], old[:-1], old[2:3], []])
+        for fmt in ("ebyte", "yd"):
+            w = run(fmt, prefix, new)
+            if w:
+                return w
+    return None
+
+
 def replay(ctx, data):
     w = data.get("witness", data)
     extract, build = _impl()
+    if w.get("kind") == "fast-history":
+        r = _fast_history(ctx, only=w)
+        print("observed:", r["what"] if r else "property holds on this input")
+        return r is not None
     if w.get("kind") == "id":
         r = _check_id(extract, build, w["id"])
     elif w.get("kind") == "args":
